@@ -43,6 +43,12 @@ CHECKS = {
  "C18": ("layout generator + structure/field/record oracles on Awkward results", "3.C18",
          "Runtime oracle on 12 Awkward layouts x 3 routes x all operations: list structure, missing positions and nesting type preserved; extra fields (numeric, string, nested list) carried unchanged by single-array operations; two-vector arithmetic returns coordinates only; record names; records taken out of arrays behave like the equivalent object for every operation.",
          "boosts/rotate_axis not judged on carrying extra fields"),
+ "C07": ("differential monitor: generated probe programs interpreted vs numba.njit, over the observed overload inventory", "3.C07",
+         "Differential runtime monitor: the set of numba-supported attributes/methods/functions is recorded by wrapping numba.extending.overload* before the backend is imported; generated probe programs (attributes, unary methods incl. 12 literal Euler orders, binary methods, chains, in-jit construction, operators/NumPy functions, loops over Awkward arrays) are run interpreted and compiled for every coordinate system and flavor of self and sampled systems/flavors of the other operand; class, flavor, dimension, system exact, values at 1e-9.",
+         "py_func is the reference; programs it rejects are not judged; faulthandler on (supplementary)"),
+ "C08": ("differential monitor: SymPy expressions evaluated at rational points vs the real compute layer at 60 digits, regularity observed by a witness", "3.C08",
+         "Differential runtime monitor: for every operation/system/flavor the SymPy backend's expression is substituted with exact rationals and evaluated to 50 digits, then compared (1e-12) with the 60-digit result of the same operation on the real compute code; the MpLib witness says, per point, whether a clamp, NaN replacement or sign convention was exercised (then the point is skipped and counted).",
+         "float literals in the compute layer limit agreement to ~1e-15; isclose and symbolic polar scale factors are documented limitations"),
  "C09": ("algebraic-law monitor on public boost methods (mp + float64)", "3.C09",
          "Law monitor: invariance, inverse, composition and cross-spelling identities of boosts are evaluated on the public API for every system of vector and booster, 60-digit and float64; both sides of each law are produced by the library, compared through the monitor's own readout.",
          "tau-stored operands forward timelike; tolerance scaled by gamma^2"),
@@ -59,7 +65,7 @@ CHECKS = {
          "Invariant-at-a-hook monitor: every dispatch of phi/deltaphi/theta/deltaangle/rho/mag/rho2/mag2/t2/t during the workload is range-checked; boundary strata on object/NumPy/Awkward/60-digit; causal and angle predicates judged against exact cosines/tau2 outside a 1e-9 margin.",
          "strict/sign contracts judged only outside the margin; magnitudes within [1e-150, 1e150]"),
 }
-PENDING = ["C07", "C08"]
+PENDING = []
 
 def main():
     checks = []
